@@ -40,3 +40,10 @@ Theorem C18_illegal_char_reported : forall n0 st c rest,
 Proof. exact illegal_char_reported. Qed.
 Print Assumptions C18_illegal_char_reported.
 ''')
+mk("C16","parsing work grows linearly with input size - no backtracking blow-up","CostExamples"," UnicodeTables PyRepr Lexer LexerProofs",
+'''(* the lexer's loop runs at most once per character: |text|+1 iterations always suffice (each removes a non-empty prefix) *)
+Theorem C16_lex_iterations_linear : forall text file,
+  snd (raw_lex (S (length text)) (init_lexst file) text) = true.
+Proof. exact lex_terminates. Qed.
+Print Assumptions C16_lex_iterations_linear.
+''')
